@@ -117,6 +117,9 @@ Proof. intros. unfold do_remove_key. destruct (mget key (cmap c)); reflexivity. 
 Lemma drk_notes : forall key c, cnotes (do_remove_key key c) = cnotes c /\ clast (do_remove_key key c) = clast c.
 Proof. intros. unfold do_remove_key. destruct (mget key (cmap c)); split; reflexivity. Qed.
 
+Lemma drk_cache : forall key c, cdirty (do_remove_key key c) = cdirty c /\ csnap (do_remove_key key c) = csnap c.
+Proof. intros. unfold do_remove_key. destruct (mget key (cmap c)); split; reflexivity. Qed.
+
 (* doRemoveKey on the mapping is "delete key", whatever the state *)
 Lemma drk_map : forall key c k,
   mget k (cmap (do_remove_key key c)) = if key =? k then None else mget k (cmap c).
@@ -254,7 +257,7 @@ Lemma add_kv_unfold : forall key value c,
   add_kv key value c =
   let c2 := clear_excl value (detach key value c) in
   mkC (cexcl c2) (mset value (getl value (cvals c2) ++ [key]) (cvals c2))
-      (mset key value (cmap c2)) (cnotes c2) (clast c2).
+      (mset key value (cmap c2)) (cnotes c2) (clast c2) true (csnap c2).
 Proof. reflexivity. Qed.
 
 Lemma clear_excl_inv : forall value c, cinv c -> cinv (clear_excl value c).
